@@ -145,7 +145,10 @@ async fn run_case(case: Vec<String>) -> String {
         Some(&"-") | None => String::new(),
         Some(t) => format!(";{}", t.replace('+', ";")),
     };
-    let uri_text = format!("{}:bob@{}{}{}", if u[0] == "1" { "sips" } else { "sip" }, host, port, uparams);
+    // an optional fifth field: how the scheme is spelled (schemes are case-insensitive)
+    let spelling = u.get(4).and_then(|k| k.parse::<usize>().ok()).unwrap_or(0);
+    let scheme = if u[0] == "1" { ["sips", "SIPS", "Sips", "sipS"][spelling % 4] } else { ["sip", "SIP", "Sip", "siP"][spelling % 4] };
+    let uri_text = format!("{}:bob@{}{}{}", scheme, host, port, uparams);
     let uri = endpoint.parse_uri(&uri_text).unwrap();
     let before: Vec<usize> = facs
         .iter()
